@@ -33,7 +33,7 @@ correspondence / metamorphic / oracle runs into theorems, bring glue code (wrapp
 the model with driver ops and generators that reach it, and extend the *translation* tie so that whole function bodies are
 re-read from the source on every run and PROVED equal to the hand-written model (`Props/CxxSrc*.lean`). Each agent had to
 show, per new piece, one realistic breaking edit that only the new work exposes and two behaviour-preserving rewrites that
-stay silent. Registered obligations grew from 528 to {total}; the reports are kept under `reports/ext4/`.
+stay silent. Registered obligations grew from 455 to {total}; the reports are kept under `reports/ext4/`.
 
 **The translator family after this round** (all `ast`-based, all part of the trusted base, each with its reading rules stated
 at the top of its file; every `Generated/*.lean` that existed before is byte-identical after the merge):
